@@ -9,46 +9,15 @@ variable {δ ε : Type}
 /-- pop order of the heap: by due time, then by order of scheduling -/
 def Entry.lt (a b : Entry ε) : Prop := a.due < b.due ∨ (a.due = b.due ∧ a.seq < b.seq)
 
-/-! ### association list `delayed_send` -/
+/-! ### the guard table `delayed_send` -/
 
-theorem removeId_cons (id k : SendId) (v : Nat) (r : List (SendId × Nat)) :
-    removeId id ((k, v) :: r) = if k = id then removeId id r else (k, v) :: removeId id r := by
-  by_cases h : k = id <;> simp [removeId, h]
+theorem hasGuard_iff {m : List (Option SendId × Nat)} {key : Option SendId} {g : Nat} :
+    hasGuard m key g = true ↔ (key, g) ∈ m := by
+  simp [hasGuard]
 
-theorem lookupId_cons (id k : SendId) (v : Nat) (r : List (SendId × Nat)) :
-    lookupId id ((k, v) :: r) = if k = id then some v else lookupId id r := rfl
-
-theorem lookupId_removeId_self (id : SendId) (m : List (SendId × Nat)) :
-    lookupId id (removeId id m) = none := by
-  induction m with
-  | nil => rfl
-  | cons p r ih =>
-    obtain ⟨k, v⟩ := p
-    rw [removeId_cons]
-    by_cases h : k = id
-    · simp [h, ih]
-    · simp [h, ih, lookupId_cons]
-
-theorem lookupId_removeId_ne {id id' : SendId} (h : id' ≠ id) (m : List (SendId × Nat)) :
-    lookupId id' (removeId id m) = lookupId id' m := by
-  induction m with
-  | nil => rfl
-  | cons p r ih =>
-    obtain ⟨k, v⟩ := p
-    rw [removeId_cons, lookupId_cons]
-    by_cases hk : k = id
-    · have hn : ¬ k = id' := fun e => h (e.symm.trans hk)
-      rw [if_pos hk, if_neg hn]; exact ih
-    · rw [if_neg hk, lookupId_cons]
-      by_cases hk' : k = id'
-      · rw [if_pos hk', if_pos hk']
-      · rw [if_neg hk', if_neg hk']; exact ih
-
-theorem lookupId_removeId_some {id id' : SendId} {g : Nat} {m : List (SendId × Nat)}
-    (h : lookupId id' (removeId id m) = some g) : id' ≠ id ∧ lookupId id' m = some g := by
-  by_cases e : id' = id
-  · subst e; rw [lookupId_removeId_self] at h; cases h
-  · exact ⟨e, by rw [← lookupId_removeId_ne e m]; exact h⟩
+theorem hasGuard_false_iff {m : List (Option SendId × Nat)} {key : Option SendId} {g : Nat} :
+    hasGuard m key g = false ↔ (key, g) ∉ m := by
+  rw [← hasGuard_iff]; simp
 
 /-! ### heap insertion -/
 
@@ -107,15 +76,6 @@ theorem insertEntry_seqs {e : Entry ε} {l : List (Entry ε)}
       intro x hx
       have := hseq x hx; omega
 
-theorem mem_dropGuard {g : Nat} {x : Entry ε} {l : List (Entry ε)} :
-    x ∈ dropGuard g l ↔ x ∈ l ∧ x.seq ≠ g := by
-  simp [dropGuard, List.mem_filter]
-
-theorem dropGuard_of_not_mem {g : Nat} {l : List (Entry ε)} (h : ∀ x ∈ l, x.seq ≠ g) :
-    dropGuard g l = l := by
-  unfold dropGuard
-  exact List.filter_eq_self.2 (fun x hx => by simp [h x hx])
-
 /-! ### the invariant -/
 
 structure WF (t : Timer δ ε) : Prop where
@@ -128,21 +88,23 @@ structure WF (t : Timer δ ε) : Prop where
   lsorted : t.log.Pairwise (fun a b => a.viaTimer = true → b.viaTimer = true → Entry.lt a.entry b.entry)
   lnodup : t.log.Pairwise (fun a b => a.entry.seq ≠ b.entry.seq)
   ldisj : ∀ d ∈ t.log, ∀ e ∈ t.pending, d.entry.seq ≠ e.seq
-  own : ∀ e ∈ t.pending, ∀ sid, e.sendid = some sid → lookupId sid t.delayed = some e.seq
-  gseq : ∀ sid g, lookupId sid t.delayed = some g → g < t.nextSeq
-  gid : ∀ sid g, lookupId sid t.delayed = some g → ∀ e ∈ t.pending, e.seq = g → e.sendid = some sid
+  /-- every pending entry has its own guard registered under its own send id -/
+  own : ∀ e ∈ t.pending, (e.sendid, e.seq) ∈ t.delayed
+  gseq : ∀ p ∈ t.delayed, p.2 < t.nextSeq
+  /-- a registered guard belongs to the entry with its serial number, under that entry's send id -/
+  gid : ∀ p ∈ t.delayed, ∀ e ∈ t.pending, e.seq = p.2 → e.sendid = p.1
   dead : t.stopped = true → t.pending = []
   sdead : t.stopped = true → t.alive = false
+  /-- the receiver reads the event as it was built -/
+  lseen : ∀ d ∈ t.log, d.seen = d.entry.event
 
-theorem WF.initFull (f : δ → ε → ε) (hr : Nat) (d : δ) : WF (Timer.initFull f hr d : Timer δ ε) := by
-  constructor <;> simp [Timer.initFull, lookupId]
+theorem WF.initFull (hr : Nat) (d : δ) : WF (Timer.initFull hr d : Timer δ ε) := by
+  constructor <;> simp [Timer.initFull]
 
-theorem WF.initWith (f : δ → ε → ε) (d : δ) : WF (Timer.initWith f d : Timer δ ε) := WF.initFull f _ d
-
-theorem WF.init (d : δ) : WF (Timer.init d : Timer δ ε) := WF.initWith _ d
+theorem WF.init (d : δ) : WF (Timer.init d : Timer δ ε) := WF.initFull _ d
 
 theorem WF.tick {t : Timer δ ε} (h : WF t) (t' : Nat) : WF (t.tick t') := by
-  obtain ⟨h1, h2, h3, h4, h5, h6, h7, h8, h9, h10, h11, h12, h13, h14⟩ := h
+  obtain ⟨h1, h2, h3, h4, h5, h6, h7, h8, h9, h10, h11, h12, h13, h14, h15⟩ := h
   constructor <;> simp only [Timer.tick] <;> try assumption
   intro d hd
   have := h5 d hd
@@ -152,19 +114,45 @@ theorem WF.assign {t : Timer δ ε} (h : WF t) (f : δ → δ) : WF (t.assign f)
   unfold Timer.assign
   split
   · exact h
-  · obtain ⟨h1, h2, h3, h4, h5, h6, h7, h8, h9, h10, h11, h12, h13, h14⟩ := h
+  · obtain ⟨h1, h2, h3, h4, h5, h6, h7, h8, h9, h10, h11, h12, h13, h14, h15⟩ := h
     constructor <;> assumption
 
+/-- dropping every registered guard empties the heap: every pending entry has its guard registered -/
+theorem terminate_pending {t : Timer δ ε} (h : WF t) : t.terminate.pending = [] := by
+  simp only [Timer.terminate]
+  rw [List.filter_eq_nil_iff]
+  intro e he
+  have hm := h.own e he
+  have : t.delayed.any (fun p => decide (p.2 = e.seq)) = true :=
+    List.any_eq_true.2 ⟨_, hm, by simp⟩
+  simp [this]
+
 theorem WF.terminate {t : Timer δ ε} (h : WF t) : WF t.terminate := by
-  obtain ⟨h1, h2, h3, h4, h5, h6, h7, h8, h9, h10, h11, h12, h13, h14⟩ := h
-  constructor <;> simp only [Timer.terminate] <;> first | assumption | simp
+  have hp := terminate_pending h
+  obtain ⟨h1, h2, h3, h4, h5, h6, h7, h8, h9, h10, h11, h12, h13, h14, h15⟩ := h
+  constructor
+  · rw [hp]; exact List.Pairwise.nil
+  · rw [hp]; exact List.Pairwise.nil
+  · rw [hp]; intro e he; cases he
+  · exact h4
+  · exact h5
+  · rw [hp]; intro d _ _ e he; cases he
+  · exact h7
+  · exact h8
+  · rw [hp]; intro d _ e he; cases he
+  · rw [hp]; intro e he; cases he
+  · intro p hp'; cases hp'
+  · intro p hp'; cases hp'
+  · intro _; exact hp
+  · intro _; rfl
+  · exact h15
 
 theorem WF.stop {t : Timer δ ε} (h : WF t) : WF t.stop := by
   unfold Timer.stop
   split
   · exact h
   · rename_i ha
-    obtain ⟨h1, h2, h3, h4, h5, h6, h7, h8, h9, h10, h11, h12, h13, h14⟩ := h
+    obtain ⟨h1, h2, h3, h4, h5, h6, h7, h8, h9, h10, h11, h12, h13, h14, h15⟩ := h
     constructor <;> simp only <;> first | assumption | simp
     simpa using ha
 
@@ -172,109 +160,87 @@ theorem WF.cancel {t : Timer δ ε} (h : WF t) (id : SendId) : WF (t.cancel id) 
   unfold Timer.cancel
   split
   · exact h
-  · split
-    · exact h
-    · rename_i g hg
-      obtain ⟨h1, h2, h3, h4, h5, h6, h7, h8, h9, h10, h11, h12, h13, h14⟩ := h
-      constructor <;> simp only
-      · exact h1.filter _
-      · exact h2.filter _
-      · intro e he; exact h3 e (mem_dropGuard.1 he).1
-      · exact h4
-      · exact h5
-      · intro d hd hv e he; exact h6 d hd hv e (mem_dropGuard.1 he).1
-      · exact h7
-      · exact h8
-      · intro d hd e he; exact h9 d hd e (mem_dropGuard.1 he).1
-      · intro e he sid hs
-        have he' := mem_dropGuard.1 he
-        by_cases c : sid = id
-        · subst c
-          have := h10 e he'.1 sid hs
-          rw [hg] at this
-          exact absurd (Option.some.inj this).symm he'.2
-        · rw [lookupId_removeId_ne c]; exact h10 e he'.1 sid hs
-      · intro sid g' hl; exact h11 sid g' (lookupId_removeId_some hl).2
-      · intro sid g' hl e he; exact h12 sid g' (lookupId_removeId_some hl).2 e (mem_dropGuard.1 he).1
-      · intro ha; simp [h13 ha, dropGuard]
-      · exact h14
+  · obtain ⟨h1, h2, h3, h4, h5, h6, h7, h8, h9, h10, h11, h12, h13, h14, h15⟩ := h
+    constructor <;> simp only
+    · exact h1.filter _
+    · exact h2.filter _
+    · intro e he; exact h3 e (List.mem_filter.1 he).1
+    · exact h4
+    · exact h5
+    · intro d hd hv e he; exact h6 d hd hv e (List.mem_filter.1 he).1
+    · exact h7
+    · exact h8
+    · intro d hd e he; exact h9 d hd e (List.mem_filter.1 he).1
+    · intro e he
+      have he' := List.mem_filter.1 he
+      have hown := h10 e he'.1
+      have hng : hasGuard t.delayed (some id) e.seq = false := by simpa using he'.2
+      have hne : e.sendid ≠ some id := by
+        intro hc
+        rw [hc] at hown
+        exact (hasGuard_false_iff.1 hng) hown
+      exact List.mem_filter.2 ⟨hown, by simpa using hne⟩
+    · intro p hp; exact h11 p (List.mem_filter.1 hp).1
+    · intro p hp e he; exact h12 p (List.mem_filter.1 hp).1 e (List.mem_filter.1 he).1
+    · intro ha; simp [h13 ha]
+    · exact h14
+    · exact h15
 
-/-- the closure of the head entry, under the invariant: it removes its own guard only -/
+/-- the closure of the head entry: it removes its own guard only -/
 theorem WF.fireOne {t : Timer δ ε} (h : WF t) {e : Entry ε} {rest : List (Entry ε)}
     (hp : t.pending = e :: rest) (hdue : e.due ≤ t.now) : WF (fireOne t e rest) := by
-  obtain ⟨h1, h2, h3, h4, h5, h6, h7, h8, h9, h10, h11, h12, h13, h14⟩ := h
+  obtain ⟨h1, h2, h3, h4, h5, h6, h7, h8, h9, h10, h11, h12, h13, h14, h15⟩ := h
   rw [hp] at h1 h2 h3 h6 h9 h10 h12
   have s1 := List.pairwise_cons.1 h1
   have s2 := List.pairwise_cons.1 h2
-  have hlog : ∀ d ∈ t.log ++ [(⟨t.now, true, e, t.deref t.data e.event⟩ : Delivery ε)],
-      d ∈ t.log ∨ d = ⟨t.now, true, e, t.deref t.data e.event⟩ := by
+  have hlog : ∀ d ∈ t.log ++ [(⟨t.now, true, e, e.event⟩ : Delivery ε)],
+      d ∈ t.log ∨ d = ⟨t.now, true, e, e.event⟩ := by
     intro d hd; simpa using hd
-  -- facts that do not depend on which guard is dropped
-  have A : ∀ (p' : List (Entry ε)) (dl : List (SendId × Nat)),
-      (∀ x ∈ p', x ∈ rest) → p'.Pairwise Entry.lt → p'.Pairwise (fun a b => a.seq ≠ b.seq) →
-      (∀ x ∈ p', ∀ sid, x.sendid = some sid → lookupId sid dl = some x.seq) →
-      (∀ sid g, lookupId sid dl = some g → lookupId sid t.delayed = some g) →
-      (t.stopped = true → p' = []) →
-      WF ({ t with pending := p', delayed := dl, log := t.log ++ [⟨t.now, true, e, t.deref t.data e.event⟩] } : Timer δ ε) := by
-    intro p' dl hsub hs hn hown hdl hdead
-    constructor <;> simp only
-    · exact hs
-    · exact hn
-    · intro x hx; exact h3 x (List.mem_cons_of_mem _ (hsub x hx))
-    · intro d hd
-      rcases hlog d hd with hd | rfl
-      · exact h4 d hd
-      · exact h3 e (List.mem_cons_self ..)
-    · intro d hd
-      rcases hlog d hd with hd | rfl
-      · exact h5 d hd
-      · exact ⟨hdue, Nat.le_refl _⟩
-    · intro d hd hv x hx
-      rcases hlog d hd with hd | rfl
-      · exact h6 d hd hv x (List.mem_cons_of_mem _ (hsub x hx))
-      · exact s1.1 x (hsub x hx)
-    · refine List.pairwise_append.2 ⟨h7, by simp, ?_⟩
-      intro a ha b hb hva _
-      simp only [List.mem_singleton] at hb
-      subst hb
-      exact h6 a ha hva e (List.mem_cons_self ..)
-    · refine List.pairwise_append.2 ⟨h8, by simp, ?_⟩
-      intro a ha b hb
-      simp only [List.mem_singleton] at hb
-      subst hb
-      exact h9 a ha e (List.mem_cons_self ..)
-    · intro d hd x hx
-      rcases hlog d hd with hd | rfl
-      · exact h9 d hd x (List.mem_cons_of_mem _ (hsub x hx))
-      · exact s2.1 x (hsub x hx)
-    · exact hown
-    · intro sid g hl; exact h11 sid g (hdl sid g hl)
-    · intro sid g hl x hx; exact h12 sid g (hdl sid g hl) x (List.mem_cons_of_mem _ (hsub x hx))
-    · exact hdead
-    · exact h14
-  have hdeadrest : t.stopped = true → rest = [] := by
-    intro ha; have := h13 ha; rw [hp] at this; cases this
   unfold Rfsm.Timer.fireOne
-  split
-  · exact A rest t.delayed (fun _ hx => hx) s1.2 s2.2
-      (fun x hx sid hs => h10 x (List.mem_cons_of_mem _ hx) sid hs) (fun _ _ hl => hl) hdeadrest
-  · rename_i sid hsid
-    split
-    · exact A rest t.delayed (fun _ hx => hx) s1.2 s2.2
-        (fun x hx sid hs => h10 x (List.mem_cons_of_mem _ hx) sid hs) (fun _ _ hl => hl) hdeadrest
-    · rename_i g hg
-      have hown := h10 e (List.mem_cons_self ..) sid hsid
-      refine A (dropGuard g rest) (removeId sid t.delayed) (fun x hx => (mem_dropGuard.1 hx).1)
-        (s1.2.filter _) (s2.2.filter _) ?_ (fun sid' g' hl => (lookupId_removeId_some hl).2) ?_
-      · intro x hx sid' hs
-        have hx' := (mem_dropGuard.1 hx).1
-        by_cases c : sid' = sid
-        · subst c
-          have := h10 x (List.mem_cons_of_mem _ hx') sid' hs
-          rw [hown] at this
-          exact absurd (Option.some.inj this) (s2.1 x hx')
-        · rw [lookupId_removeId_ne c]; exact h10 x (List.mem_cons_of_mem _ hx') sid' hs
-      · intro ha; simp [hdeadrest ha, dropGuard]
+  constructor <;> simp only
+  · exact s1.2
+  · exact s2.2
+  · intro x hx; exact h3 x (List.mem_cons_of_mem _ hx)
+  · intro d hd
+    rcases hlog d hd with hd | rfl
+    · exact h4 d hd
+    · exact h3 e (List.mem_cons_self ..)
+  · intro d hd
+    rcases hlog d hd with hd | rfl
+    · exact h5 d hd
+    · exact ⟨hdue, Nat.le_refl _⟩
+  · intro d hd hv x hx
+    rcases hlog d hd with hd | rfl
+    · exact h6 d hd hv x (List.mem_cons_of_mem _ hx)
+    · exact s1.1 x hx
+  · refine List.pairwise_append.2 ⟨h7, by simp, ?_⟩
+    intro a ha b hb hva _
+    simp only [List.mem_singleton] at hb
+    subst hb
+    exact h6 a ha hva e (List.mem_cons_self ..)
+  · refine List.pairwise_append.2 ⟨h8, by simp, ?_⟩
+    intro a ha b hb
+    simp only [List.mem_singleton] at hb
+    subst hb
+    exact h9 a ha e (List.mem_cons_self ..)
+  · intro d hd x hx
+    rcases hlog d hd with hd | rfl
+    · exact h9 d hd x (List.mem_cons_of_mem _ hx)
+    · exact s2.1 x hx
+  · intro x hx
+    refine List.mem_filter.2 ⟨h10 x (List.mem_cons_of_mem _ hx), ?_⟩
+    have hne : x.seq ≠ e.seq := (s2.1 x hx).symm
+    simp only [ne_eq, decide_not, Bool.not_eq_eq_eq_not, Bool.not_true, decide_eq_false_iff_not]
+    intro hc
+    exact hne (congrArg Prod.snd hc)
+  · intro p hp'; exact h11 p (List.mem_filter.1 hp').1
+  · intro p hp' x hx; exact h12 p (List.mem_filter.1 hp').1 x (List.mem_cons_of_mem _ hx)
+  · intro ha; have := h13 ha; rw [hp] at this; cases this
+  · exact h14
+  · intro d hd
+    rcases hlog d hd with hd | rfl
+    · exact h15 d hd
+    · rfl
 
 theorem WF.fireLoop {t : Timer δ ε} (h : WF t) (f : Nat) : WF (fireLoop f t) := by
   induction f generalizing t with
@@ -296,7 +262,7 @@ theorem WF.wake {t : Timer δ ε} (h : WF t) : WF t.wake := by
 
 theorem WF.send {t : Timer δ ε} (h : WF t) (id : Option SendId) (tg : Str) (delay : Int) (mk : δ → ε) :
     WF (t.send id tg delay mk) := by
-  obtain ⟨h1, h2, h3, h4, h5, h6, h7, h8, h9, h10, h11, h12, h13, h14⟩ := h
+  obtain ⟨h1, h2, h3, h4, h5, h6, h7, h8, h9, h10, h11, h12, h13, h14, h15⟩ := h
   unfold Timer.send
   split
   · constructor <;> assumption
@@ -305,13 +271,13 @@ theorem WF.send {t : Timer δ ε} (h : WF t) (id : Option SendId) (tg : Str) (de
   split
   · constructor <;> assumption
   split
-  · constructor <;> first | assumption | simp
+  · constructor <;> assumption
   rename_i halive hneg hint hhead
   simp only
   split
   · -- delay = 0: sent directly
-    have hlog : ∀ d ∈ t.log ++ [(⟨t.now, false, ⟨t.now, t.nextSeq, id, tg, mk t.data⟩, t.deref t.data (mk t.data)⟩ : Delivery ε)],
-        d ∈ t.log ∨ d = ⟨t.now, false, ⟨t.now, t.nextSeq, id, tg, mk t.data⟩, t.deref t.data (mk t.data)⟩ := by
+    have hlog : ∀ d ∈ t.log ++ [(⟨t.now, false, ⟨t.now, t.nextSeq, id, tg, mk t.data⟩, mk t.data⟩ : Delivery ε)],
+        d ∈ t.log ∨ d = ⟨t.now, false, ⟨t.now, t.nextSeq, id, tg, mk t.data⟩, mk t.data⟩ := by
       intro d hd; simpa using hd
     constructor <;> simp only
     · exact h1
@@ -344,11 +310,15 @@ theorem WF.send {t : Timer δ ε} (h : WF t) (id : Option SendId) (tg : Str) (de
       · exact h9 d hd e he
       · have := h3 e he; simp only; omega
     · exact h10
-    · intro sid g hl; have := h11 sid g hl; omega
+    · intro p hp; have := h11 p hp; omega
     · exact h12
     · exact h13
     · exact h14
-  · -- 0 < delay: scheduled
+    · intro d hd
+      rcases hlog d hd with hd | rfl
+      · exact h15 d hd
+      · rfl
+  · -- 0 < delay: scheduled, its guard registered under its id
     rename_i hz
     have hpos : 0 < delay.toNat := by omega
     generalize hE : (⟨t.now + delay.toNat, t.nextSeq, id, tg, mk t.data⟩ : Entry ε) = e
@@ -356,113 +326,46 @@ theorem WF.send {t : Timer δ ε} (h : WF t) (id : Option SendId) (tg : Str) (de
     have edue : e.due = t.now + delay.toNat := by rw [← hE]
     have eid : e.sendid = id := by rw [← hE]
     have hlt : ∀ x ∈ t.pending, x.seq < e.seq := fun x hx => by rw [eseq]; exact h3 x hx
-    have isorted := insertEntry_sorted (e := e) h1 hlt
-    have iseqs := insertEntry_seqs (e := e) h2 hlt
-    have B : ∀ (p' : List (Entry ε)) (dl : List (SendId × Nat)),
-        (∀ x ∈ p', x ∈ insertEntry e t.pending) → p'.Pairwise Entry.lt →
-        p'.Pairwise (fun a b => a.seq ≠ b.seq) →
-        (∀ x ∈ p', ∀ sid, x.sendid = some sid → lookupId sid dl = some x.seq) →
-        (∀ sid g, lookupId sid dl = some g → g < t.nextSeq + 1) →
-        (∀ sid g, lookupId sid dl = some g → ∀ x ∈ p', x.seq = g → x.sendid = some sid) →
-        WF ({ t with nextSeq := t.nextSeq + 1, pending := p', delayed := dl } : Timer δ ε) := by
-      intro p' dl hsub hs hn hown hgs hgi
-      constructor <;> simp only
-      · exact hs
-      · exact hn
-      · intro x hx
-        rcases mem_insertEntry.1 (hsub x hx) with rfl | hx
-        · omega
+    constructor <;> simp only
+    · exact insertEntry_sorted (e := e) h1 hlt
+    · exact insertEntry_seqs (e := e) h2 hlt
+    · intro x hx
+      rcases mem_insertEntry.1 hx with rfl | hx
+      · omega
+      · have := h3 x hx; omega
+    · intro d hd; have := h4 d hd; omega
+    · exact h5
+    · intro d hd hv x hx
+      rcases mem_insertEntry.1 hx with rfl | hx
+      · have := h5 d hd
+        unfold Entry.lt; omega
+      · exact h6 d hd hv x hx
+    · exact h7
+    · exact h8
+    · intro d hd x hx
+      rcases mem_insertEntry.1 hx with rfl | hx
+      · have := h4 d hd; omega
+      · exact h9 d hd x hx
+    · intro x hx
+      rcases mem_insertEntry.1 hx with rfl | hx
+      · rw [eid, eseq]; exact List.mem_cons_self ..
+      · exact List.mem_cons_of_mem _ (h10 x hx)
+    · intro p hp
+      rcases List.mem_cons.1 hp with rfl | hp
+      · simp
+      · have := h11 p hp; omega
+    · intro p hp x hx hxs
+      rcases List.mem_cons.1 hp with rfl | hp
+      · simp only at hxs ⊢
+        rcases mem_insertEntry.1 hx with rfl | hx
+        · exact eid
         · have := h3 x hx; omega
-      · intro d hd; have := h4 d hd; omega
-      · exact h5
-      · intro d hd hv x hx
-        rcases mem_insertEntry.1 (hsub x hx) with rfl | hx
-        · have := h5 d hd
-          unfold Entry.lt; omega
-        · exact h6 d hd hv x hx
-      · exact h7
-      · exact h8
-      · intro d hd x hx
-        rcases mem_insertEntry.1 (hsub x hx) with rfl | hx
-        · have := h4 d hd; omega
-        · exact h9 d hd x hx
-      · exact hown
-      · exact hgs
-      · exact hgi
-      · intro hs; exact absurd (h14 hs) halive
-      · exact h14
-    cases id with
-    | none =>
-      simp only
-      refine B _ _ (fun _ hx => hx) isorted iseqs ?_ (fun sid g hl => by have := h11 sid g hl; omega) ?_
-      · intro x hx sid hs
-        rcases mem_insertEntry.1 hx with rfl | hx
-        · rw [eid] at hs; cases hs
-        · exact h10 x hx sid hs
-      · intro sid g hl x hx hxg
-        rcases mem_insertEntry.1 hx with rfl | hx
-        · have := h11 sid g hl; omega
-        · exact h12 sid g hl x hx hxg
-    | some sid =>
-      simp only
-      -- whichever guard was stored under `sid` is dropped
-      have hsub : ∀ x ∈ (match lookupId sid t.delayed with
-          | some old => dropGuard old (insertEntry e t.pending)
-          | none => insertEntry e t.pending), x ∈ insertEntry e t.pending ∧
-            (∀ old, lookupId sid t.delayed = some old → x.seq ≠ old) := by
-        intro x hx
-        split at hx
-        · rename_i old hold
-          have := mem_dropGuard.1 hx
-          exact ⟨this.1, fun o ho => by rw [hold] at ho; cases ho; exact this.2⟩
-        · rename_i hnone
-          exact ⟨hx, fun o ho => by rw [hnone] at ho; cases ho⟩
-      have hP1 : (match lookupId sid t.delayed with
-          | some old => dropGuard old (insertEntry e t.pending)
-          | none => insertEntry e t.pending).Pairwise Entry.lt := by
-        split
-        · exact isorted.filter _
-        · exact isorted
-      have hP2 : List.Pairwise (fun (a b : Entry ε) => a.seq ≠ b.seq) (match lookupId sid t.delayed with
-          | some old => dropGuard old (insertEntry e t.pending)
-          | none => insertEntry e t.pending) := by
-        split
-        · exact iseqs.filter _
-        · exact iseqs
-      refine B _ _ (fun x hx => (hsub x hx).1) hP1 hP2 ?_ ?_ ?_
-      · intro x hx sid' hs
-        obtain ⟨hxm, hxo⟩ := hsub x hx
-        rw [lookupId_cons]
-        by_cases c : sid = sid'
-        · subst c
-          rw [if_pos rfl]
-          rcases mem_insertEntry.1 hxm with rfl | hxp
-          · rw [eseq]
-          · exact absurd rfl (hxo x.seq (h10 x hxp sid hs))
-        · rw [if_neg c, lookupId_removeId_ne (fun e' => c e'.symm)]
-          rcases mem_insertEntry.1 hxm with rfl | hxp
-          · rw [eid] at hs; cases hs; exact absurd rfl c
-          · exact h10 x hxp sid' hs
-      · intro sid' g hl
-        rw [lookupId_cons] at hl
-        by_cases c : sid = sid'
-        · rw [if_pos c] at hl; cases hl; omega
-        · rw [if_neg c] at hl
-          have := h11 sid' g (lookupId_removeId_some hl).2; omega
-      · intro sid' g hl x hx hxg
-        obtain ⟨hxm, hxo⟩ := hsub x hx
-        rw [lookupId_cons] at hl
-        by_cases c : sid = sid'
-        · subst c
-          rw [if_pos rfl] at hl; cases hl
-          rcases mem_insertEntry.1 hxm with rfl | hxp
-          · exact eid
-          · have := h3 x hxp; omega
-        · rw [if_neg c] at hl
-          have hl' := (lookupId_removeId_some hl).2
-          rcases mem_insertEntry.1 hxm with rfl | hxp
-          · have := h11 sid' g hl'; omega
-          · exact h12 sid' g hl' x hxp hxg
+      · rcases mem_insertEntry.1 hx with rfl | hx
+        · have := h11 p hp; omega
+        · exact h12 p hp x hx hxs
+    · intro hs; exact absurd (h14 hs) halive
+    · exact h14
+    · exact h15
 
 theorem WF.step {t : Timer δ ε} (h : WF t) (op : Op δ ε) : WF (t.step op) := by
   cases op with
@@ -481,36 +384,15 @@ theorem WF.run {t : Timer δ ε} (h : WF t) (ops : List (Op δ ε)) : WF (t.run 
 
 /-! ### what the operations do to entries that exist already -/
 
-theorem fireOne_pending {t : Timer δ ε} (h : WF t) {x : Entry ε} {rest : List (Entry ε)}
-    (hp : t.pending = x :: rest) : (fireOne t x rest).pending = rest := by
-  unfold Rfsm.Timer.fireOne
-  split
-  · rfl
-  · rename_i sid hsid
-    split
-    · rfl
-    · rename_i g hg
-      have hown := h.own x (by rw [hp]; exact List.mem_cons_self ..) sid hsid
-      rw [hg] at hown
-      cases hown
-      have hn := h.pnodup
-      rw [hp] at hn
-      exact dropGuard_of_not_mem (fun y hy => ((List.pairwise_cons.1 hn).1 y hy).symm)
+theorem fireOne_pending (t : Timer δ ε) (x : Entry ε) (rest : List (Entry ε)) :
+    (fireOne t x rest).pending = rest := rfl
 
 theorem fireOne_log (t : Timer δ ε) (x : Entry ε) (rest : List (Entry ε)) :
-    (fireOne t x rest).log = t.log ++ [⟨t.now, true, x, t.deref t.data x.event⟩] := by
-  unfold Rfsm.Timer.fireOne
-  split
-  · rfl
-  · split <;> rfl
+    (fireOne t x rest).log = t.log ++ [⟨t.now, true, x, x.event⟩] := rfl
 
 theorem fireOne_now (t : Timer δ ε) (x : Entry ε) (rest : List (Entry ε)) :
     (fireOne t x rest).now = t.now ∧ (fireOne t x rest).nextSeq = t.nextSeq ∧
-    (fireOne t x rest).alive = t.alive ∧ (fireOne t x rest).data = t.data := by
-  unfold Rfsm.Timer.fireOne
-  split
-  · simp
-  · split <;> simp
+    (fireOne t x rest).alive = t.alive ∧ (fireOne t x rest).data = t.data := ⟨rfl, rfl, rfl, rfl⟩
 
 /-- delivered by the timer thread -/
 def Delivered (t : Timer δ ε) (e : Entry ε) : Prop := ∃ d ∈ t.log, d.entry = e ∧ d.viaTimer = true
@@ -546,14 +428,6 @@ theorem Frame.trans {a b c : Timer δ ε} (h1 : Frame a b) (h2 : Frame b c) : Fr
 
 theorem Frame.fireOne (t : Timer δ ε) {x : Entry ε} {rest : List (Entry ε)}
     (hp : t.pending = x :: rest) : Frame t (fireOne t x rest) := by
-  have hsub : ∀ y ∈ (Rfsm.Timer.fireOne t x rest).pending, y ∈ rest := by
-    intro y hy
-    unfold Rfsm.Timer.fireOne at hy
-    split at hy
-    · exact hy
-    · split at hy
-      · exact hy
-      · exact (mem_dropGuard.1 hy).1
   constructor
   · intro d hd
     rw [fireOne_log] at hd
@@ -562,10 +436,10 @@ theorem Frame.fireOne (t : Timer δ ε) {x : Entry ε} {rest : List (Entry ε)}
     · simp only [List.mem_singleton] at hd
       subst hd
       exact Or.inr (Or.inl ⟨by rw [hp]; exact List.mem_cons_self .., rfl⟩)
-  · intro y hy; rw [hp]; exact Or.inl (List.mem_cons_of_mem _ (hsub y hy))
-  · rw [(fireOne_now t x rest).2.1]; exact Nat.le_refl _
+  · intro y hy; rw [hp]; exact Or.inl (List.mem_cons_of_mem _ hy)
+  · exact Nat.le_refl _
   · intro d hd; rw [fireOne_log]; exact List.mem_append_left _ hd
-  · rw [(fireOne_now t x rest).1]; exact Nat.le_refl _
+  · exact Nat.le_refl _
 
 theorem Frame.fireLoop (t : Timer δ ε) (f : Nat) : Frame t (fireLoop f t) := by
   induction f generalizing t with
@@ -592,7 +466,7 @@ theorem Frame.step (t : Timer δ ε) (op : Op δ ε) : Frame t (t.step op) := by
     exact ⟨fun _ hd => Or.inl hd, fun _ he => Or.inl he, Nat.le_refl _, fun _ hd => hd, Nat.le_max_left _ _⟩
   | terminate =>
     show Frame t t.terminate
-    exact ⟨fun _ hd => Or.inl hd, fun _ he => Or.inl he, Nat.le_refl _, fun _ hd => hd, Nat.le_refl _⟩
+    exact ⟨fun _ hd => Or.inl hd, fun _ he => Or.inl (List.mem_filter.1 he).1, Nat.le_refl _, fun _ hd => hd, Nat.le_refl _⟩
   | stop =>
     show Frame t t.stop
     unfold Timer.stop
@@ -610,9 +484,7 @@ theorem Frame.step (t : Timer δ ε) (op : Op δ ε) : Frame t (t.step op) := by
     unfold Timer.cancel
     split
     · exact Frame.refl t
-    · split
-      · exact Frame.refl t
-      · exact ⟨fun _ hd => Or.inl hd, fun e he => Or.inl (mem_dropGuard.1 he).1, Nat.le_refl _, fun _ hd => hd, Nat.le_refl _⟩
+    · exact ⟨fun _ hd => Or.inl hd, fun e he => Or.inl (List.mem_filter.1 he).1, Nat.le_refl _, fun _ hd => hd, Nat.le_refl _⟩
   | send id tg d mk =>
     show Frame t (t.send id tg d mk)
     unfold Timer.send
@@ -632,30 +504,20 @@ theorem Frame.step (t : Timer δ ε) (op : Op δ ε) : Frame t (t.step op) := by
       · exact Or.inl hx
       · simp only [List.mem_singleton] at hx
         subst hx; exact Or.inr (Or.inr (Nat.le_refl _))
-    · have key : ∀ x ∈ insertEntry (⟨t.now + d.toNat, t.nextSeq, id, tg, mk t.data⟩ : Entry ε) t.pending,
-          x ∈ t.pending ∨ t.nextSeq ≤ x.seq := by
-        intro x hx
-        rcases mem_insertEntry.1 hx with rfl | hx
-        · exact Or.inr (Nat.le_refl _)
-        · exact Or.inl hx
-      cases id with
-      | none => exact ⟨fun _ hd => Or.inl hd, key, Nat.le_succ _, fun _ hd => hd, Nat.le_refl _⟩
-      | some sid =>
-        refine ⟨fun _ hd => Or.inl hd, ?_, Nat.le_succ _, fun _ hd => hd, Nat.le_refl _⟩
-        intro x hx
-        simp only at hx
-        split at hx
-        · exact key x (mem_dropGuard.1 hx).1
-        · exact key x hx
+    · refine ⟨fun _ hd => Or.inl hd, ?_, Nat.le_succ _, fun _ hd => hd, Nat.le_refl _⟩
+      intro x hx
+      rcases mem_insertEntry.1 hx with rfl | hx
+      · exact Or.inr (Nat.le_refl _)
+      · exact Or.inl hx
 
 theorem Frame.run (t : Timer δ ε) (ops : List (Op δ ε)) : Frame t (t.run ops) := by
   induction ops generalizing t with
   | nil => exact Frame.refl t
   | cons op ops ih => exact (Frame.step t op).trans (ih _)
 
-/-- executed in state `t`, `op` neither cancels, overwrites nor discards the pending entry `e` -/
-def Safe (t : Timer δ ε) (e : Entry ε) : Op δ ε → Prop
-  | .send (some sid) tg d _ => ¬ (t.alive = true ∧ 0 < d ∧ tg ≠ internalTarget ∧ e.sendid = some sid)
+/-- `op` neither cancels nor discards the pending entry `e`.  (A `<send>` is always safe: it adds a
+guard and touches no other.) -/
+def Safe (e : Entry ε) : Op δ ε → Prop
   | .cancel id => e.sendid ≠ some id
   | .terminate => False
   | .stop => False
@@ -677,9 +539,9 @@ theorem fire_keeps {t : Timer δ ε} (h : WF t) {e : Entry ε} (he : e ∈ t.pen
         rcases List.mem_cons.1 he with rfl | he
         · right
           have hm := (Frame.fireLoop (fireOne t e rest) f).mono
-          refine ⟨⟨t.now, true, e, t.deref t.data e.event⟩, hm _ ?_, rfl, rfl⟩
+          refine ⟨⟨t.now, true, e, e.event⟩, hm _ ?_, rfl, rfl⟩
           rw [fireOne_log]; simp
-        · exact ih hw (by rw [fireOne_pending h hp]; exact he)
+        · exact ih hw he
       · exact Or.inl he
 
 theorem fire_due {t : Timer δ ε} (h : WF t) {e : Entry ε} (he : e ∈ t.pending) (hdue : e.due ≤ t.now)
@@ -704,14 +566,13 @@ theorem fire_due {t : Timer δ ε} (h : WF t) {e : Entry ε} (he : e ∈ t.pendi
       have hw := h.fireOne hp hxdue
       rcases List.mem_cons.1 he with rfl | he'
       · have hm := (Frame.fireLoop (fireOne t e rest) f).mono
-        refine ⟨⟨t.now, true, e, t.deref t.data e.event⟩, hm _ ?_, rfl, rfl⟩
+        refine ⟨⟨t.now, true, e, e.event⟩, hm _ ?_, rfl, rfl⟩
         rw [fireOne_log]; simp
-      · refine ih hw (by rw [fireOne_pending h hp]; exact he') ?_ ?_
-        · rw [(fireOne_now t x rest).1]; exact hdue
-        · rw [fireOne_pending h hp]; simp at hf; omega
+      · refine ih hw he' hdue ?_
+        rw [fireOne_pending]; simp at hf; omega
 
 theorem keep_step {t : Timer δ ε} (h : WF t) {e : Entry ε} (he : e ∈ t.pending) (op : Op δ ε)
-    (hs : Safe t e op) : e ∈ (t.step op).pending ∨ Delivered (t.step op) e := by
+    (hs : Safe e op) : e ∈ (t.step op).pending ∨ Delivered (t.step op) e := by
   have hns : ¬ t.stopped = true := by
     intro hst; have := h.dead hst; rw [this] at he; cases he
   cases op with
@@ -734,12 +595,12 @@ theorem keep_step {t : Timer δ ε} (h : WF t) {e : Entry ε} (he : e ∈ t.pend
     unfold Timer.cancel
     split
     · exact he
-    split
-    · exact he
-    · rename_i g hg
-      refine mem_dropGuard.2 ⟨he, ?_⟩
-      intro hc
-      exact hs (h.gid id g hg e he hc)
+    · refine List.mem_filter.2 ⟨he, ?_⟩
+      have : hasGuard t.delayed (some id) e.seq = false := by
+        rw [hasGuard_false_iff]
+        intro hm
+        exact hs (h.gid _ hm e he rfl)
+      simp [this]
   | send id tg d mk =>
     left
     show e ∈ (t.send id tg d mk).pending
@@ -755,193 +616,29 @@ theorem keep_step {t : Timer δ ε} (h : WF t) {e : Entry ε} (he : e ∈ t.pend
     simp only
     split
     · exact he
-    · rename_i halive hneg hint hhead hz
-      have hin : e ∈ insertEntry (⟨t.now + d.toNat, t.nextSeq, id, tg, mk t.data⟩ : Entry ε) t.pending :=
-        mem_insertEntry.2 (Or.inr he)
-      cases id with
-      | none => exact hin
-      | some sid =>
-        simp only
-        split
-        · rename_i old hold
-          refine mem_dropGuard.2 ⟨hin, ?_⟩
-          intro hc
-          have hsid := h.gid sid old hold e he hc
-          apply hs
-          refine ⟨by simpa using halive, by omega, ?_, hsid⟩
-          intro htg
-          exact hint ⟨by omega, htg⟩
-        · exact hin
+    · exact mem_insertEntry.2 (Or.inr he)
 
 theorem keep_run {t : Timer δ ε} (h : WF t) {e : Entry ε} (he : e ∈ t.pending) (ops : List (Op δ ε))
-    (hs : ∀ op ∈ ops, ∀ t', Safe t' e op) : e ∈ (t.run ops).pending ∨ Delivered (t.run ops) e := by
+    (hs : ∀ op ∈ ops, Safe e op) : e ∈ (t.run ops).pending ∨ Delivered (t.run ops) e := by
   induction ops generalizing t with
   | nil => exact Or.inl he
   | cons op ops ih =>
-    rcases keep_step h he op (hs op (List.mem_cons_self ..) t) with he' | ⟨d, hd, hde⟩
+    rcases keep_step h he op (hs op (List.mem_cons_self ..)) with he' | ⟨d, hd, hde⟩
     · exact ih (h.step op) he' (fun o ho => hs o (List.mem_cons_of_mem _ ho))
     · right
       exact ⟨d, (Frame.run (t.step op) ops).mono d hd, hde⟩
 
-theorem Safe.of_harmless {e : Entry ε} {op : Op δ ε} (h : op.harmlessFor e.sendid = true) (t : Timer δ ε) :
-    Safe t e op := by
+/-- no `<cancel>` of the entry's id, no termination: every operation is safe for the entry -/
+theorem Safe.of_no_cancel {e : Entry ε} {op : Op δ ε} (hc : ∀ id, op = .cancel id → e.sendid ≠ some id)
+    (hterm : op ≠ .terminate ∧ op ≠ .stop) : Safe e op := by
   cases op with
-  | send id tg d mk =>
-    cases id with
-    | none => trivial
-    | some sid =>
-      intro ⟨_, hd, _, hsid⟩
-      simp [Op.harmlessFor, hd, hsid] at h
-  | cancel id =>
-    intro hc
-    simp [Op.harmlessFor, hc] at h
-  | terminate => simp [Op.harmlessFor] at h
-  | stop => simp [Op.harmlessFor] at h
+  | send id tg d mk => trivial
+  | cancel id => exact hc id rfl
+  | terminate => exact absurd rfl hterm.1
+  | stop => exact absurd rfl hterm.2
   | assign f => trivial
   | tick t' => trivial
   | wake => trivial
-
-/-! ### what the receiver reads -/
-
-/-- every delivery was read through the session's (constant) `deref` from some state of the data -/
-def Seen (t : Timer δ ε) : Prop := ∀ d ∈ t.log, ∃ dat, d.seen = t.deref dat d.entry.event
-
-theorem fireOne_deref (t : Timer δ ε) (x : Entry ε) (rest : List (Entry ε)) :
-    (fireOne t x rest).deref = t.deref := by
-  unfold Rfsm.Timer.fireOne
-  split
-  · rfl
-  · split <;> rfl
-
-theorem fireLoop_deref (f : Nat) (t : Timer δ ε) : (fireLoop f t).deref = t.deref := by
-  induction f generalizing t with
-  | zero => rfl
-  | succ f ih =>
-    unfold Rfsm.Timer.fireLoop
-    split
-    · rfl
-    · split
-      · exact (ih _).trans (fireOne_deref ..)
-      · rfl
-
-theorem step_deref (t : Timer δ ε) (op : Op δ ε) : (t.step op).deref = t.deref := by
-  cases op with
-  | send id tg d mk =>
-    show (t.send id tg d mk).deref = t.deref
-    unfold Timer.send
-    split
-    · rfl
-    split
-    · rfl
-    split
-    · rfl
-    split
-    · rfl
-    simp only
-    split
-    · rfl
-    · cases id <;> rfl
-  | cancel id =>
-    show (t.cancel id).deref = t.deref
-    unfold Timer.cancel
-    split
-    · rfl
-    · split <;> rfl
-  | assign f => show (t.assign f).deref = t.deref; unfold Timer.assign; split <;> rfl
-  | tick t' => rfl
-  | wake =>
-    show t.wake.deref = t.deref
-    unfold Timer.wake
-    split
-    · rfl
-    · exact fireLoop_deref ..
-  | terminate => rfl
-  | stop => show t.stop.deref = t.deref; unfold Timer.stop; split <;> rfl
-
-theorem run_deref (t : Timer δ ε) (ops : List (Op δ ε)) : (t.run ops).deref = t.deref := by
-  induction ops generalizing t with
-  | nil => rfl
-  | cons op ops ih => exact (ih _).trans (step_deref t op)
-
-theorem Seen.fireOne {t : Timer δ ε} (h : Seen t) (x : Entry ε) (rest : List (Entry ε)) :
-    Seen (fireOne t x rest) := by
-  intro d hd
-  rw [fireOne_log] at hd
-  rw [fireOne_deref]
-  rcases List.mem_append.1 hd with hd | hd
-  · exact h d hd
-  · simp only [List.mem_singleton] at hd
-    subst hd
-    exact ⟨t.data, rfl⟩
-
-theorem Seen.fireLoop {t : Timer δ ε} (h : Seen t) (f : Nat) : Seen (fireLoop f t) := by
-  induction f generalizing t with
-  | zero => exact h
-  | succ f ih =>
-    unfold Rfsm.Timer.fireLoop
-    split
-    · exact h
-    · split
-      · exact ih (h.fireOne _ _)
-      · exact h
-
-theorem Seen.step {t : Timer δ ε} (h : Seen t) (op : Op δ ε) : Seen (t.step op) := by
-  cases op with
-  | send id tg d mk =>
-    show Seen (t.send id tg d mk)
-    unfold Timer.send
-    split
-    · exact h
-    split
-    · exact h
-    split
-    · exact h
-    split
-    · exact h
-    simp only
-    split
-    · intro x hx
-      rcases List.mem_append.1 hx with hx | hx
-      · exact h x hx
-      · simp only [List.mem_singleton] at hx
-        subst hx
-        exact ⟨t.data, rfl⟩
-    · cases id with
-      | none => exact h
-      | some sid => exact h
-  | cancel id =>
-    show Seen (t.cancel id)
-    unfold Timer.cancel
-    split
-    · exact h
-    · split
-      · exact h
-      · exact h
-  | assign f =>
-    show Seen (t.assign f)
-    unfold Timer.assign
-    split
-    · exact h
-    · exact h
-  | tick t' => exact h
-  | wake =>
-    show Seen t.wake
-    unfold Timer.wake
-    split
-    · exact h
-    · exact h.fireLoop _
-  | terminate => exact h
-  | stop =>
-    show Seen t.stop
-    unfold Timer.stop
-    split
-    · exact h
-    · exact h
-
-theorem Seen.run {t : Timer δ ε} (h : Seen t) (ops : List (Op δ ε)) : Seen (t.run ops) := by
-  induction ops generalizing t with
-  | nil => exact h
-  | cons op ops ih => exact ih (h.step op)
 
 /-! ### helpers of the C16 theorems -/
 
@@ -961,8 +658,8 @@ theorem filter_seq_length_aux {l : List (Delivery ε)} (hn : l.Pairwise (fun a b
     · have hne : ¬ x.entry.seq = d.entry.seq := hx.1 d hd
       simp [hne, ih hx.2 hd]
 
-/-- the general form of "exactly once": any side condition that makes every operation `Safe` for
-the entry will do -/
+/-- the general form of "exactly once": an entry that is still pending or already delivered when
+its due time has passed is delivered exactly once after the next `wake` -/
 theorem exactly_once_of_safe_aux (t : Timer δ ε) (hw0 : WF t) (e : Entry ε)
     (ops : List (Op δ ε)) (hs : e ∈ (t.run ops).pending ∨ Delivered (t.run ops) e)
     (hdue : e.due ≤ (t.run ops).now) :
@@ -983,37 +680,6 @@ theorem exactly_once_of_safe_aux (t : Timer δ ε) (hw0 : WF t) (e : Entry ε)
   rw [hde] at this
   exact this
 
-theorem idsFresh_keep_aux {t : Timer δ ε} (h : WF t) {e : Entry ε} (he : e ∈ t.pending) (ops : List (Op δ ε))
-    (hc : ∀ op ∈ ops, ∀ id, op = .cancel id → e.sendid ≠ some id)
-    (hterm : ∀ op ∈ ops, op ≠ .terminate ∧ op ≠ .stop)
-    (hf : idsFresh t ops = true) : e ∈ (t.run ops).pending ∨ Delivered (t.run ops) e := by
-  induction ops generalizing t with
-  | nil => exact Or.inl he
-  | cons op ops ih =>
-    unfold idsFresh at hf
-    rw [Bool.and_eq_true] at hf
-    have hsafe : Safe t e op := by
-      cases op with
-      | send id tg d mk =>
-        cases id with
-        | none => trivial
-        | some sid =>
-          intro ⟨halive, hd, htg, hsid⟩
-          have hl := h.own e he sid hsid
-          have := hf.1
-          simp [halive, hd, htg, hl] at this
-      | cancel id => exact hc _ (List.mem_cons_self ..) id rfl
-      | terminate => exact absurd rfl (hterm _ (List.mem_cons_self ..)).1
-      | stop => exact absurd rfl (hterm _ (List.mem_cons_self ..)).2
-      | assign f => trivial
-      | tick t' => trivial
-      | wake => trivial
-    rcases keep_step h he op hsafe with he' | ⟨d, hd, hde⟩
-    · exact ih (h.step op) he' (fun o ho => hc o (List.mem_cons_of_mem _ ho))
-        (fun o ho => hterm o (List.mem_cons_of_mem _ ho)) hf.2
-    · right
-      exact ⟨d, (Frame.run (t.step op) ops).mono d hd, hde⟩
-
 /-- in a list whose members have pairwise distinct `seq`, equal `seq` means equal member -/
 theorem eq_of_seq_eq_aux (l : List (Entry ε)) (hl : l.Pairwise (fun a b => a.seq ≠ b.seq))
     {a b : Entry ε} (ha : a ∈ l) (hb : b ∈ l) (hs : a.seq = b.seq) : a = b := by
@@ -1027,60 +693,27 @@ theorem eq_of_seq_eq_aux (l : List (Entry ε)) (hl : l.Pairwise (fun a b => a.se
     · exact absurd (r2 ▸ hs.symm) (hx.1 a r1)
     · exact ih hx.2 r1 r2
 
-theorem stopped_run_aux (t : Timer δ ε) (hs : t.stopped = true) (ha : t.alive = false) (hp : t.pending = [])
+/-- a session whose thread has ended and whose heap holds nothing delivers nothing any more -/
+theorem dead_run_aux (t : Timer δ ε) (ha : t.alive = false) (hp : t.pending = [])
     (ops : List (Op δ ε)) : (t.run ops).log = t.log ∧ (t.run ops).pending = [] := by
   induction ops generalizing t with
   | nil => exact ⟨rfl, hp⟩
   | cons op ops ih =>
-    have hstep : (t.step op).stopped = true ∧ (t.step op).alive = false ∧ (t.step op).pending = [] ∧
-        (t.step op).log = t.log := by
+    have hstep : (t.step op).alive = false ∧ (t.step op).pending = [] ∧ (t.step op).log = t.log := by
       cases op with
-      | send id tg d mk => simp [Timer.step, Timer.send, ha, hp, hs]
-      | cancel id => simp [Timer.step, Timer.cancel, ha, hp, hs]
-      | assign f => simp [Timer.step, Timer.assign, ha, hp, hs]
-      | tick t' => exact ⟨hs, ha, hp, rfl⟩
-      | wake => simp [Timer.step, Timer.wake, ha, hp, hs]
-      | terminate => exact ⟨hs, rfl, hp, rfl⟩
-      | stop => simp [Timer.step, Timer.stop, ha]
-    have := ih (t.step op) hstep.1 hstep.2.1 hstep.2.2.1
-    exact ⟨this.1.trans hstep.2.2.2, this.2⟩
-
-theorem fireLoop_fields_aux (f : Nat) (t : Timer δ ε) :
-    (fireLoop f t).nextSeq = t.nextSeq ∧ (fireLoop f t).alive = t.alive := by
-  induction f generalizing t with
-  | zero => exact ⟨rfl, rfl⟩
-  | succ f ih =>
-    unfold Rfsm.Timer.fireLoop
-    split
-    · exact ⟨rfl, rfl⟩
-    · rename_i x rest hp
-      split
-      · have h1 := ih (fireOne t x rest)
-        have h2 := fireOne_now t x rest
-        exact ⟨h1.1.trans h2.2.1, h1.2.trans h2.2.2.1⟩
-      · exact ⟨rfl, rfl⟩
-
-theorem dead_nextSeq_aux (u : Timer δ ε) (hu : u.alive = false) (os : List (Op δ ε)) :
-    (u.run os).nextSeq = u.nextSeq := by
-  induction os generalizing u with
-  | nil => rfl
-  | cons o os ih =>
-    have h1 : (u.step o).alive = false ∧ (u.step o).nextSeq = u.nextSeq := by
-      cases o with
-      | send id tg dl mk => simp [Timer.step, Timer.send, hu]
-      | cancel id => simp [Timer.step, Timer.cancel, hu]
-      | assign f => simp [Timer.step, Timer.assign, hu]
-      | tick t' => exact ⟨hu, rfl⟩
-      | terminate => exact ⟨rfl, rfl⟩
-      | stop => simp [Timer.step, Timer.stop, hu]
+      | send id tg d mk => simp [Timer.step, Timer.send, ha, hp]
+      | cancel id => simp [Timer.step, Timer.cancel, ha, hp]
+      | assign f => simp [Timer.step, Timer.assign, ha, hp]
+      | tick t' => exact ⟨ha, hp, rfl⟩
       | wake =>
-        show u.wake.alive = false ∧ u.wake.nextSeq = u.nextSeq
+        show t.wake.alive = false ∧ t.wake.pending = [] ∧ t.wake.log = t.log
         unfold Timer.wake
         split
-        · exact ⟨hu, rfl⟩
-        · have := fireLoop_fields_aux u.pending.length u
-          exact ⟨this.2.trans hu, this.1⟩
-    exact (ih _ h1.1).trans h1.2
-
+        · exact ⟨ha, hp, rfl⟩
+        · rw [hp]; exact ⟨ha, hp, rfl⟩
+      | terminate => simp [Timer.step, Timer.terminate, hp]
+      | stop => simp [Timer.step, Timer.stop, ha]
+    have := ih (t.step op) hstep.1 hstep.2.1
+    exact ⟨this.1.trans hstep.2.2, this.2⟩
 
 end Rfsm.Timer
